@@ -741,12 +741,18 @@ def velocity_rules(rep, m):
     # ---- estimate loop: VEL records collected by their index field, others renumbered
     vel = None
     for s in walk_stmts(body):
-        if isinstance(s, ast.If) and isinstance(s.test, ast.Compare) and isinstance(s.test.comparators[0], ast.Constant) and s.test.comparators[0].value == 'VEL':
-            sb = slice_bounds(s.test.left)
+        substring = isinstance(s, ast.If) and isinstance(s.test, ast.Compare) and len(s.test.ops) == 1 and isinstance(s.test.ops[0], ast.In) \
+            and isinstance(s.test.left, ast.Constant) and s.test.left.value == 'VEL'
+        if substring or (isinstance(s, ast.If) and isinstance(s.test, ast.Compare) and isinstance(s.test.comparators[0], ast.Constant) and s.test.comparators[0].value == 'VEL'):
+            sb = slice_bounds(s.test.left) if not substring else None
             apps = append_calls(s.body)
             if apps:
                 vel = (apps[0][0].id if isinstance(apps[0][0], ast.Name) else None, s)
-                if sb == (7, 10):
+                if substring:
+                    o.bad('estimate::vel-test', s, 'velocity records are recognised by the substring test `%s`: VEL anywhere in the record counts - the position records of a station whose '
+                          'code contains VEL (VELA, NVEL) are dropped as velocities while the header still announces them' % stmt_text(s.test)[:40],
+                          expected='line[7:10] == "VEL" (parameter type field, columns 8-13)', actual=stmt_text(s.test)[:40])
+                elif sb == (7, 10):
                     o.ok('estimate::vel-test', s, 'velocity records recognised by VEL in columns 8-10 (parameter type field 8-13)')
                 else:
                     o.bad('estimate::vel-test', s, 'velocity records are recognised by line[%s:%s] == "VEL"; the parameter type starts in column 8 (line[7:10])' % (sb or ('?', '?')),
